@@ -386,17 +386,20 @@ func uploader(ctx context.Context, indexStore storage.Store, indexTime time.Time
 
 					break
 				}
-				lastSeen = uniqueKeys
-
-				chunkIndex++
 				started := chunkGroup.TryGo(
 					chunkUploader(cctx,
-						chunkIndex, chunkSize,
+						chunkIndex+1, chunkSize,
 						indexStore, indexTime, uploadKeysPtr, db, logger,
 						options,
 					),
 				)
 				if started {
+					// chunks are numbered without gaps: a number is only consumed by an upload that starts
+					// (a chunk number skipped while the previous upload is still running would let the
+					// chunk of a former index bearing that number survive)
+					chunkIndex++
+					lastSeen = uniqueKeys
+
 					logger.Info("started index chunk upload",
 						zap.Uint64("chunk", chunkIndex),
 					)
